@@ -309,7 +309,7 @@ def run(ctx, rep):
                 r.bad(key, "comparator closure does not simply return Ord::cmp of JSON values: %s"
                       % [x.full for x in oc], c.where())
     for fn, m in (("lt", "lt"), ("lte", "le"), ("gt", "gt"), ("gte", "ge")):
-        bs = [b for n, b in lib.bodies.items() if n.startswith("<functions::boolean::compare::%s::get::" % fn)
+        bs = [b for n, b in lib.bodies.items() if n.startswith("<functions::boolean::compare::%s::" % fn)
               and n.endswith("as selection::Get>::get")]
         key = "compare::%s" % fn
         if not bs:
